@@ -64,7 +64,9 @@ class Pipe:
             'throughput must be positive or None'
         transferred = 0
         identifier = object()
-        throughput = throughput if throughput is not None else self.throughput
+        if throughput is None or throughput == float('inf'):
+            # no limit of its own: the transfer can use whatever the pipe provides
+            throughput = self.throughput
         self._add_subscriber(identifier, throughput)
         try:
             if total == 0:
